@@ -1,5 +1,175 @@
-"""Runs the variant corpus of one property (filled in below)."""
+"""Self-test of the analyser (thorough tier): every rule must fire on a variant of
+/repo's *current* source with one instance broken, and stay silent on a
+behaviour-preserving rewrite.  Variants are applied to an in-memory copy of the
+sources (nothing is written to disk, /repo is never touched).
+
+A variant whose anchor text is not present in the current tree is *skipped* and
+reported as such (the tree has changed under the corpus); it never turns into a
+verdict about the repository.
+"""
+from __future__ import annotations
+
+import ast
+import importlib
+import os
+import sys
+import time
+import traceback
+from concurrent.futures import ProcessPoolExecutor
+from typing import Dict, List, Optional, Tuple
+
+HERE = os.path.dirname(os.path.dirname(os.path.abspath(__file__)))
+if HERE not in sys.path:
+    sys.path.insert(0, HERE)
+
+from sa.model import AnalysisError, Repo, load_sources  # noqa: E402
 
 
-def run_for(prop, seed):
-    return {"variants": 0, "note": "corpus not built yet"}
+def _func_span(src: str, qualname: str) -> Optional[Tuple[int, int]]:
+    """(start, end) character offsets of a function / method / class given by qualname."""
+    tree = ast.parse(src)
+    parts = qualname.split(".")
+    node = tree
+    for p in parts:
+        found = None
+        for n in ast.walk(node) if node is tree else ast.iter_child_nodes(node):
+            if isinstance(n, (ast.FunctionDef, ast.AsyncFunctionDef, ast.ClassDef)) and n.name == p:
+                found = n
+                break
+        if found is None:
+            # nested defs may sit inside compound statements
+            for n in ast.walk(node):
+                if isinstance(n, (ast.FunctionDef, ast.AsyncFunctionDef, ast.ClassDef)) and n.name == p and n is not node:
+                    found = n
+                    break
+        if found is None:
+            return None
+        node = found
+    lines = src.splitlines(keepends=True)
+    start = sum(len(l) for l in lines[: node.lineno - 1])
+    end = sum(len(l) for l in lines[: node.end_lineno])
+    return start, end
+
+
+def apply_variant(sources: Dict[str, str], v: dict) -> Optional[Dict[str, str]]:
+    out = dict(sources)
+    for edit in v["edits"]:
+        path = edit["file"]
+        src = out.get(path)
+        if src is None:
+            return None
+        if edit.get("func"):
+            span = _func_span(src, edit["func"])
+            if span is None:
+                return None
+            a, b = span
+        else:
+            a, b = 0, len(src)
+        seg = src[a:b]
+        if seg.count(edit["old"]) != edit.get("count", 1):
+            return None
+        seg = seg.replace(edit["old"], edit["new"])
+        src = src[:a] + seg + src[b:]
+        try:
+            compile(src, path, "exec")
+        except SyntaxError as e:
+            raise AssertionError("variant %s does not compile: %s" % (v["id"], e))
+        out[path] = src
+    return out
+
+
+def violations_of(prop: str, sources: Dict[str, str]):
+    mod = importlib.import_module("sa.rules.%s" % prop.lower())
+    repo = Repo(sources=sources)
+    found = []
+    for rule in mod.RULES:
+        rr = rule(repo)
+        rr.check_floor()
+        for i in rr.violations:
+            found.append((i.rule, i.file, i.function, i.construct, i.what))
+    return found
+
+
+def _run_one(args):
+    prop, v, sources, baseline = args
+    t0 = time.time()
+    res = {"id": v["id"], "kind": v["kind"], "expect": v.get("rule"), "note": v.get("note", "")}
+    try:
+        overlay = apply_variant(sources, v)
+        if overlay is None:
+            res.update(status="skipped", detail="anchor text not present in the current tree")
+            return res
+        try:
+            found = violations_of(prop, overlay)
+            err = None
+        except AnalysisError as e:
+            found, err = [], str(e)
+        base = set(x[:4] for x in baseline)
+        new = [x for x in found if x[:4] not in base]
+        if v["kind"] == "fire":
+            hit = [x for x in new if x[0] == v["rule"] and (not v.get("construct") or v["construct"] in x[3] or v["construct"] in x[2])]
+            if hit:
+                res.update(status="pass", detail="%s %s::%s [%s]" % (hit[0][0], hit[0][1], hit[0][2], hit[0][3]))
+            elif err and v.get("allow_error"):
+                res.update(status="pass", detail="analysis error (accepted for this variant): %s" % err)
+            else:
+                res.update(status="FAIL", detail="expected %s to fire; new violations: %s; error: %s" % (v["rule"], [x[:4] for x in new], err))
+        else:
+            if err:
+                res.update(status="FAIL", detail="analysis error on a behaviour-preserving variant: %s" % err)
+            elif new:
+                res.update(status="FAIL", detail="false alarm on a behaviour-preserving variant: %s" % [x[:4] for x in new])
+            else:
+                res.update(status="pass", detail="silent")
+    except Exception as e:  # analyser crash
+        res.update(status="FAIL", detail="crash: %r\n%s" % (e, traceback.format_exc()[-600:]))
+    res["wall_s"] = round(time.time() - t0, 2)
+    return res
+
+
+def run_for(prop: str, seed: int = 0, jobs: int = 16) -> dict:
+    from selftest.corpus import VARIANTS
+
+    sources = load_sources()
+    variants = [v for v in VARIANTS if v["property"] == prop]
+    try:
+        baseline = violations_of(prop, sources)
+    except AnalysisError:
+        baseline = []
+    tasks = [(prop, v, sources, baseline) for v in variants]
+    results = []
+    if tasks:
+        with ProcessPoolExecutor(max_workers=min(jobs, len(tasks))) as ex:
+            results = list(ex.map(_run_one, tasks))
+    failed = [r for r in results if r["status"] == "FAIL"]
+    summary = {
+        "variants": len(results),
+        "passed": sum(1 for r in results if r["status"] == "pass"),
+        "skipped": sum(1 for r in results if r["status"] == "skipped"),
+        "failed": len(failed),
+        "must_fire": sum(1 for r in results if r["kind"] == "fire"),
+        "must_stay_silent": sum(1 for r in results if r["kind"] == "silent"),
+        "results": results,
+    }
+    if failed:
+        raise AnalysisError(
+            "self-test: the analyser misbehaves on %d variant(s): %s"
+            % (len(failed), "; ".join("%s (%s)" % (r["id"], r["detail"][:200]) for r in failed))
+        )
+    return summary
+
+
+if __name__ == "__main__":
+    props = sys.argv[1:] or sorted({v["property"] for v in importlib.import_module("selftest.corpus").VARIANTS})
+    bad = 0
+    for p in props:
+        try:
+            s = run_for(p)
+            print("%s: %d variants, %d passed, %d skipped" % (p, s["variants"], s["passed"], s["skipped"]))
+            for r in s["results"]:
+                if r["status"] != "pass":
+                    print("   ", r["id"], r["status"], r["detail"][:160])
+        except AnalysisError as e:
+            bad += 1
+            print("%s: SELF-TEST FAILURE %s" % (p, e))
+    sys.exit(2 if bad else 0)
